@@ -20,7 +20,7 @@ import ast, os, sys, json, hashlib
 
 REPO = os.environ.get('DCMSTACK_REPO', '/repo')
 HERE = os.path.dirname(os.path.abspath(__file__))
-OUT = os.path.normpath(os.path.join(HERE, '..', 'lean', 'DcmVerif', 'Generated', 'Code.lean'))
+OUT = os.environ.get('GEN_CODE_OUT', os.path.normpath(os.path.join(HERE, '..', 'lean', 'DcmVerif', 'Generated', 'Code.lean')))
 
 CLS = {('global', 'const'): 'gconst', ('global', 'slices'): 'gslices', ('time', 'samples'): 'tsamples',
        ('time', 'slices'): 'tslices', ('vector', 'samples'): 'vsamples', ('vector', 'slices'): 'vslices'}
@@ -83,6 +83,8 @@ class Tr:
                 return '(← %s)' % self.calls[s]
             if isinstance(n, ast.Call) and isinstance(n.func, ast.Name) and n.func.id == 'len' and len(n.args) == 1:
                 return '(%s).length' % self.e(n.args[0])
+            if isinstance(n, ast.Call) and isinstance(n.func, ast.Name) and n.func.id == 'list' and len(n.args) == 1:
+                return self.e(n.args[0])          # list(tuple): a copy of the sequence
             if isinstance(n, ast.Call) and isinstance(n.func, ast.Name) and n.func.id == 'int' and len(n.args) == 1:
                 return self.e(n.args[0])          # int() of a floor division of naturals
             if isinstance(n, ast.Call) and isinstance(n.func, ast.Name) and n.func.id == 'all' and len(n.args) == 1 \
@@ -104,6 +106,9 @@ class Tr:
                 if sl.step is not None:
                     raise Unsupported('slice step')
                 lo, hi = sl.lower, sl.upper
+                if lo is None and hi is not None and isinstance(hi, ast.UnaryOp) and isinstance(hi.op, ast.USub) \
+                        and isinstance(hi.operand, ast.Constant) and hi.operand.value == 1:
+                    return '(%s).dropLast' % base
                 if lo is None and hi is not None:
                     return '(%s).take %s' % (base, self.atom(hi))
                 if lo is not None and hi is None:
@@ -115,6 +120,9 @@ class Tr:
                 raise Unsupported('slice ' + self.src(n))
             if isinstance(n.value, ast.Name) and n.value.id in self.generic:
                 return '(%s)[%s]?' % (base, self.e(sl))
+            if isinstance(sl, ast.UnaryOp) and isinstance(sl.op, ast.USub) and isinstance(sl.operand, ast.Constant) \
+                    and sl.operand.value == 1:
+                return '(%s)[(%s).length - 1]!' % (base, base)
             return '(%s)[%s]!' % (base, self.e(sl))
         if isinstance(n, ast.BinOp) and isinstance(n.op, ast.Add) and (self.is_list(n.left) or self.is_list(n.right)):
             return '(%s ++ %s)' % (self.e(n.left), self.e(n.right))
@@ -196,6 +204,13 @@ class Tr:
                             count[t.id] = count.get(t.id, 0) + 1
                 elif isinstance(s, ast.AugAssign) and isinstance(s.target, ast.Name):
                     count[s.target.id] = count.get(s.target.id, 0) + 2
+                if isinstance(s, ast.Assign):
+                    for t in s.targets:
+                        if isinstance(t, ast.Subscript) and isinstance(t.value, ast.Name):
+                            count[t.value.id] = count.get(t.value.id, 0) + 2
+                if isinstance(s, ast.Expr) and isinstance(s.value, ast.Call) and isinstance(s.value.func, ast.Attribute) \
+                        and s.value.func.attr == 'append' and isinstance(s.value.func.value, ast.Name):
+                    count[s.value.func.value.id] = count.get(s.value.func.value.id, 0) + 2
                 for f in ('body', 'orelse'):
                     if hasattr(s, f):
                         walk(getattr(s, f))
@@ -246,6 +261,9 @@ class Tr:
                 a, b = t.elts[0].id, t.elts[1].id
                 self.declared[-1].update([a, b])
                 return ['%slet %s := %s.base' % (ind, a, s.value.id), '%slet %s := %s.sub' % (ind, b, s.value.id)]
+            if isinstance(t, ast.Subscript) and isinstance(t.value, ast.Name) and self.is_declared(t.value.id) \
+                    and not isinstance(t.slice, ast.Slice):
+                return ['%s%s := (%s).set %s %s' % (ind, t.value.id, t.value.id, self.atom(t.slice), self.atom(s.value))]
             if not isinstance(t, ast.Name):
                 raise Unsupported('assignment target ' + self.src(t))
             x = t.id
@@ -292,6 +310,22 @@ class Tr:
             return out
         if isinstance(s, ast.Continue):
             return ['%scontinue' % ind]
+        if isinstance(s, ast.While):
+            if s.orelse:
+                raise Unsupported('while-else')
+            fuel = getattr(self, 'while_fuel', None)
+            if fuel is None:
+                raise Unsupported('while loop without a bound')
+            cond = self.b(s.test)
+            out = ['%sfor _ in List.range (%s) do' % (ind, fuel), '%s  if (!%s) then' % (ind, cond), '%s    break' % ind]
+            out += self.block(s.body, ind + '  ')
+            out += ['%sif %s then' % (ind, cond), '%s  throw PyErr.fuelExhausted' % ind]
+            return out
+        if isinstance(s, ast.Expr) and isinstance(s.value, ast.Call) and isinstance(s.value.func, ast.Attribute) \
+                and s.value.func.attr == 'append' and isinstance(s.value.func.value, ast.Name) \
+                and self.is_declared(s.value.func.value.id) and len(s.value.args) == 1:
+            x = s.value.func.value.id
+            return ['%s%s := %s ++ [%s]' % (ind, x, x, self.e(s.value.args[0]))]
         if isinstance(s, ast.If) and not s.orelse and isinstance(s.test, ast.Compare) and len(s.test.ops) == 1 \
                 and isinstance(s.test.ops[0], ast.IsNot) and isinstance(s.test.left, ast.Name) \
                 and s.test.left.id in self.opt_locals and isinstance(s.test.comparators[0], ast.Constant) \
@@ -408,6 +442,7 @@ inductive PyErr
   | assertionError
   | invalidStack
   | invalidExtension
+  | fuelExhausted        -- a translated `while` loop ran longer than the bound the translator gave it
 deriving DecidableEq, Repr
 
 /-- a classification as the pair of strings the Python code unpacks it into -/
@@ -470,6 +505,44 @@ def translate():
                 {'self.get_valid_classes()': 'get_valid_classes self_shape'},
                 optional_exprs=['self.n_slices'], cls_vars=['classification']),
              '`DcmMetaExtension.get_multiplicity` (dcmmeta.py), translated statement by statement')
+    # ---- get_subset: shape of the result
+    f = find_func(dm, 'DcmMetaExtension', 'get_subset')
+    blk = None
+    if f is not None:
+        names = [s.targets[0].id if isinstance(s, ast.Assign) and isinstance(s.targets[0], ast.Name) else None for s in f.body]
+        if 'result_shape' in names:
+            i0 = names.index('result_shape')
+            j0 = i0
+            while j0 + 1 < len(f.body) and not (isinstance(f.body[j0 + 1], ast.Assign) and names[j0 + 1] == 'result'):
+                j0 += 1
+            blk = f.body[i0:j0 + 1]
+    if blk is None or not any(isinstance(s, ast.While) for s in blk):
+        missing.append('subset_shape: statements result_shape = … while … not found')
+    else:
+        tr = Tr({}, {})
+        tr.while_fuel = '(shape).length'
+        emit('subset_shape', '(shape : List Nat) (dim : Nat) : Except PyErr (List Nat)',
+             blk + [ast.parse('return result_shape').body[0]], tr,
+             'the shape of the result of `DcmMetaExtension.get_subset` (dcmmeta.py): the split axis set to one, trailing '
+             'singleton axes beyond the third removed; the `while` loop is bounded by the number of axes (exceeding the '
+             'bound is the error `fuelExhausted`, which the equivalence theorem excludes)')
+    # ---- from_sequence (extension): shape of the result
+    f = find_func(dm, 'DcmMetaExtension', 'from_sequence')
+    blk = None
+    if f is not None:
+        names = [s.targets[0].id if isinstance(s, ast.Assign) and isinstance(s.targets[0], ast.Name) else None for s in f.body]
+        if 'output_shape' in names:
+            i0 = names.index('output_shape')
+            blk = f.body[i0:i0 + 3]
+    if blk is None or not (len(blk) == 3 and isinstance(blk[1], ast.While)):
+        missing.append('merge_shape: statements output_shape = … while … output_shape[dim] = … not found')
+    else:
+        tr = Tr({}, {})
+        tr.while_fuel = 'dim + 1'
+        emit('merge_shape', '(input_shape : List Nat) (dim n_inputs : Nat) : Except PyErr (List Nat)',
+             blk + [ast.parse('return output_shape').body[0]], tr,
+             'the shape of the result of `DcmMetaExtension.from_sequence` (dcmmeta.py): padded with ones up to the merge '
+             'axis, the number of inputs on it; the `while` loop is bounded by `dim + 1`')
     # ---- check_valid
     f = find_func(dm, 'DcmMetaExtension', 'check_valid')
     if f is None:
